@@ -255,3 +255,5 @@ func VsymC10() {
 		vr.Reach("failure")
 	}
 }
+
+func init() { vsymHarnesses["VsymC10"] = VsymC10 }
